@@ -160,7 +160,7 @@ CHECKS = {
     "C04": {
         "level": "exploration",
         "engine": "E1",
-        "needs_bins": [],
+        "needs_bins": ["mrp", "mrjob", "stagebin"],
         "technique": "property-based testing (rapid): generated file-passing programs x VDR mode x generated schedule on the in-process engine with stages that write real files; validity predicate at every job start / finish and at completion (no model of what gets deleted)",
         "level_text": ("Programs of the C01 generator with file-rich signatures (file, path, user file types, strings and untyped maps holding paths, inside structs / arrays / typed maps, "
                        "through sub-pipelines, several consumers, map calls) and volatile / volatile=strict / volatile=false / retain annotations on stages, calls and pipelines x vdr mode "
@@ -173,8 +173,9 @@ CHECKS = {
         "rule": ("rapid program + vdr mode + schedule; non-trivial: VDR enabled, >= 1 stage file was deleted during the run and >= 1 job had a file in its arguments; distinct by hash(program, mode, schedule); "
                  "classes: mode, consumer-of-file, late-consumer (started > 6 harness actions after the producer finished), top-output-names-file, retained-file, files-deleted."),
         "assumptions": _SEM_ASSUME + ["stages obey the contract: a returned path names a file the job wrote itself under its own files directory"],
-        "units": [U("props/run", "TestRunFiles", (600, 10), (12000, 10), env={"VERIF_ONLY": "C04"})],
-        "floors": {"quick": {"consumer-of-file": 500, "late-consumer": 50, "files-deleted": 500, "top-output-names-file": 300, "retained-file": 100, "mode:strict": 300, "mode:rolling": 300, "mode:post": 100}},
+        "units": [U("props/run", "TestRunFiles", (600, 10), (12000, 10), env={"VERIF_ONLY": "C04"}),
+                  U("props/run", "TestE2Files", (40, 6), (1200, 8), env={"VERIF_ONLY": "C04"})],
+        "floors": {"quick": {"e2-files": 150, "consumer-of-file": 500, "late-consumer": 50, "files-deleted": 500, "top-output-names-file": 300, "retained-file": 100, "mode:strict": 300, "mode:rolling": 300, "mode:post": 100}},
     },
     "C05": {
         "level": "exploration",
@@ -280,7 +281,7 @@ CHECKS = {
     "C13": {
         "level": "exploration",
         "engine": "E1",
-        "needs_bins": [],
+        "needs_bins": ["mrp", "mrjob", "stagebin"],
         "technique": "property-based testing (rapid): generated programs whose stages write real files, run to completion on the in-process engine, VDR + PostProcess, then outs/ and the rewritten top-level _outs compared with an independently derived layout (parameter name, type, explicit out name, zero-padded index, map key)",
         "level_text": ("Top-level output signatures drawn from the generated universe: file, path, user file types (extension), arrays (1-2 dimensions) and typed maps of files, structs and "
                        "stage/pipeline output structs containing files, nested combinations, keys that cannot be directory names, null values, paths returned but never written, several outputs "
@@ -290,13 +291,14 @@ CHECKS = {
         "level_note": "Mapped top-level calls, explicit out names, symlink outputs and outputs outside the pipestance are not generated yet.",
         "rule": "as C04; non-trivial: >= 1 non-null file leaf nested in a struct / array / typed map; classes: file-leaf, nested-file-leaf.",
         "assumptions": _SEM_ASSUME,
-        "units": [U("props/run", "TestRunFiles", (600, 10), (12000, 10), env={"VERIF_ONLY": "C13"})],
-        "floors": {"quick": {"file-leaf": 500, "nested-file-leaf": 300}},
+        "units": [U("props/run", "TestRunFiles", (600, 10), (12000, 10), env={"VERIF_ONLY": "C13"}),
+                  U("props/run", "TestE2Files", (40, 6), (1200, 8), env={"VERIF_ONLY": "C13"})],
+        "floors": {"quick": {"e2-files": 150, "file-leaf": 500, "nested-file-leaf": 300}},
     },
     "C14": {
         "level": "exploration",
         "engine": "E1",
-        "needs_bins": [],
+        "needs_bins": ["mrp", "mrjob", "stagebin"],
         "technique": "property-based testing (rapid): the C04 runs with a ledger of everything each job wrote; invariants over the directory tree and the _vdrkill reports at completion",
         "level_text": ("As C04, plus files no output names and temporary files per job.  Oracle after the final VDR pass (vdr enabled): no job's tmp directory holds anything; no file written "
                        "by a chunk of a splitting stage is left; no file written by the main/join job of a volatile call (call volatile, stage volatile=strict, or strict mode without "
@@ -307,8 +309,9 @@ CHECKS = {
         "level_note": "Interruption and restart between partial and final cleanup is part of the C05 machinery (not built yet).",
         "rule": "as C04; non-trivial: VDR enabled, >= 1 written entry removed and >= 1 file kept by a top-level output or retain; classes: mode, must-go-files, kept-and-removed.",
         "assumptions": _SEM_ASSUME + ["stages obey the contract: a returned path names a file the job wrote itself under its own files directory"],
-        "units": [U("props/run", "TestRunFiles", (600, 10), (12000, 10), env={"VERIF_ONLY": "C14"})],
-        "floors": {"quick": {"must-go-files": 500, "kept-and-removed": 300, "failed-attempt-reset": 300, "mode:strict": 300, "mode:rolling": 300, "mode:post": 100}},
+        "units": [U("props/run", "TestRunFiles", (600, 10), (12000, 10), env={"VERIF_ONLY": "C14"}),
+                  U("props/run", "TestE2Files", (40, 6), (1200, 8), env={"VERIF_ONLY": "C14"})],
+        "floors": {"quick": {"e2-files": 150, "must-go-files": 500, "kept-and-removed": 300, "failed-attempt-reset": 300, "mode:strict": 300, "mode:rolling": 300, "mode:post": 100}},
     },
     "C15": {
         "level": "exploration",
